@@ -184,15 +184,6 @@ macro_rules! unlabelled_common {
                 let _ = write!(w, "={}", v);
             }
         }
-        fn indexes(&self, w: &mut String) {
-            dump_enum(w, &mut <$ty>::indexes().map(|k| k.to_vec()));
-        }
-        fn keys(&self, _w: &mut String) -> Res {
-            Res::Na
-        }
-        fn dkeys(&self, _w: &mut String) -> Res {
-            Res::Na
-        }
         fn len(&self, w: &mut String) -> Res {
             w.push_str(" v");
             put(w, self.a.len() as u64);
@@ -569,17 +560,6 @@ impl<A: Dom> Kind for L1<A> {
             let _ = write!(w, " {}={}", un::<A>(k), v);
         }
     }
-    fn indexes(&self, w: &mut String) {
-        dump_enum(w, &mut MArrD1::<A, u64>::indexes().map(|i| vec![un::<A>(i)]));
-    }
-    fn keys(&self, w: &mut String) -> Res {
-        dump_enum(w, &mut <MArrD1<A, u64> as Keys<A::Idx>>::keys().map(|i| vec![un::<A>(i)]));
-        Res::Ok
-    }
-    fn dkeys(&self, w: &mut String) -> Res {
-        dkeys_axis::<A>(w);
-        Res::Ok
-    }
 }
 
 impl<A: Dom, B: Dom> Kind for L2<A, B> {
@@ -679,21 +659,6 @@ impl<A: Dom, B: Dom> Kind for L2<A, B> {
         for ((i, j), v) in self.a.iter_with() {
             let _ = write!(w, " {}.{}={}", un::<A>(i), un::<B>(j), v);
         }
-    }
-    fn indexes(&self, w: &mut String) {
-        dump_enum(w, &mut MArrD2::<A, B, u64>::indexes().map(|(i, j)| vec![un::<A>(i), un::<B>(j)]));
-    }
-    fn keys(&self, w: &mut String) -> Res {
-        dump_enum(
-            w,
-            &mut <MArrD2<A, B, u64> as Keys<(A::Idx, B::Idx)>>::keys().map(|(i, j)| vec![un::<A>(i), un::<B>(j)]),
-        );
-        Res::Ok
-    }
-    fn dkeys(&self, w: &mut String) -> Res {
-        dkeys_axis::<A>(w);
-        dkeys_axis::<B>(w);
-        Res::Ok
     }
 }
 
@@ -800,26 +765,6 @@ impl<A: Dom, B: Dom, C: Dom> Kind for L3<A, B, C> {
             let _ = write!(w, " {}.{}.{}={}", un::<A>(i), un::<B>(j), un::<C>(k), v);
         }
     }
-    fn indexes(&self, w: &mut String) {
-        dump_enum(
-            w,
-            &mut MArrD3::<A, B, C, u64>::indexes().map(|(i, j, k)| vec![un::<A>(i), un::<B>(j), un::<C>(k)]),
-        );
-    }
-    fn keys(&self, w: &mut String) -> Res {
-        dump_enum(
-            w,
-            &mut <MArrD3<A, B, C, u64> as Keys<(A::Idx, B::Idx, C::Idx)>>::keys()
-                .map(|(i, j, k)| vec![un::<A>(i), un::<B>(j), un::<C>(k)]),
-        );
-        Res::Ok
-    }
-    fn dkeys(&self, w: &mut String) -> Res {
-        dkeys_axis::<A>(w);
-        dkeys_axis::<B>(w);
-        dkeys_axis::<C>(w);
-        Res::Ok
-    }
 }
 
 // ---------------------------------------------------------------------------------------------
@@ -865,6 +810,129 @@ macro_rules! pick_n {
             _ => None,
         }
     };
+}
+
+
+// ---------------------------------------------------------------------------------------------
+// state-free operations (index enumerations): they are associated functions of the array / domain types, so they
+// are run without constructing an array (a broken constructor must not disturb them)
+
+use std::marker::PhantomData;
+
+pub struct SU1<const K0: usize>;
+pub struct SU2<const K0: usize, const K1: usize>;
+pub struct SU3<const K0: usize, const K1: usize, const K2: usize>;
+pub struct SL1<A: Dom>(PhantomData<A>);
+pub struct SL2<A: Dom, B: Dom>(PhantomData<(A, B)>);
+pub struct SL3<A: Dom, B: Dom, C: Dom>(PhantomData<(A, B, C)>);
+
+impl<const K0: usize> StaticKind for SU1<K0> {
+    fn indexes(&self, w: &mut String) {
+        dump_enum(w, &mut MArr1::<u64, K0>::indexes().map(|k| k.to_vec()));
+    }
+    fn keys(&self, _w: &mut String) -> Res {
+        Res::Na
+    }
+    fn dkeys(&self, _w: &mut String) -> Res {
+        Res::Na
+    }
+}
+impl<const K0: usize, const K1: usize> StaticKind for SU2<K0, K1> {
+    fn indexes(&self, w: &mut String) {
+        dump_enum(w, &mut MArr2::<u64, K0, K1>::indexes().map(|k| k.to_vec()));
+    }
+    fn keys(&self, _w: &mut String) -> Res {
+        Res::Na
+    }
+    fn dkeys(&self, _w: &mut String) -> Res {
+        Res::Na
+    }
+}
+impl<const K0: usize, const K1: usize, const K2: usize> StaticKind for SU3<K0, K1, K2> {
+    fn indexes(&self, w: &mut String) {
+        dump_enum(w, &mut MArr3::<u64, K0, K1, K2>::indexes().map(|k| k.to_vec()));
+    }
+    fn keys(&self, _w: &mut String) -> Res {
+        Res::Na
+    }
+    fn dkeys(&self, _w: &mut String) -> Res {
+        Res::Na
+    }
+}
+impl<A: Dom> StaticKind for SL1<A> {
+    fn indexes(&self, w: &mut String) {
+        dump_enum(w, &mut MArrD1::<A, u64>::indexes().map(|i| vec![un::<A>(i)]));
+    }
+    fn keys(&self, w: &mut String) -> Res {
+        dump_enum(w, &mut <MArrD1<A, u64> as Keys<A::Idx>>::keys().map(|i| vec![un::<A>(i)]));
+        Res::Ok
+    }
+    fn dkeys(&self, w: &mut String) -> Res {
+        dkeys_axis::<A>(w);
+        Res::Ok
+    }
+}
+impl<A: Dom, B: Dom> StaticKind for SL2<A, B> {
+    fn indexes(&self, w: &mut String) {
+        dump_enum(w, &mut MArrD2::<A, B, u64>::indexes().map(|(i, j)| vec![un::<A>(i), un::<B>(j)]));
+    }
+    fn keys(&self, w: &mut String) -> Res {
+        dump_enum(
+            w,
+            &mut <MArrD2<A, B, u64> as Keys<(A::Idx, B::Idx)>>::keys().map(|(i, j)| vec![un::<A>(i), un::<B>(j)]),
+        );
+        Res::Ok
+    }
+    fn dkeys(&self, w: &mut String) -> Res {
+        dkeys_axis::<A>(w);
+        dkeys_axis::<B>(w);
+        Res::Ok
+    }
+}
+impl<A: Dom, B: Dom, C: Dom> StaticKind for SL3<A, B, C> {
+    fn indexes(&self, w: &mut String) {
+        dump_enum(
+            w,
+            &mut MArrD3::<A, B, C, u64>::indexes().map(|(i, j, k)| vec![un::<A>(i), un::<B>(j), un::<C>(k)]),
+        );
+    }
+    fn keys(&self, w: &mut String) -> Res {
+        dump_enum(
+            w,
+            &mut <MArrD3<A, B, C, u64> as Keys<(A::Idx, B::Idx, C::Idx)>>::keys()
+                .map(|(i, j, k)| vec![un::<A>(i), un::<B>(j), un::<C>(k)]),
+        );
+        Res::Ok
+    }
+    fn dkeys(&self, w: &mut String) -> Res {
+        dkeys_axis::<A>(w);
+        dkeys_axis::<B>(w);
+        dkeys_axis::<C>(w);
+        Res::Ok
+    }
+}
+
+type BS = Box<dyn StaticKind>;
+
+pub fn make_static(variant: &str, d: &[usize]) -> Option<BS> {
+    match (variant, d) {
+        ("U.u", [a]) => pick_c!(*a, A => Some(Box::new(SU1::<A>) as BS)),
+        ("U.u", [a, b]) => pick_c!(*a, A => pick_c!(*b, B => Some(Box::new(SU2::<A, B>) as BS))),
+        ("U.u", [a, b, c]) => {
+            pick_c!(*a, A => pick_c!(*b, B => pick_c!(*c, C => Some(Box::new(SU3::<A, B, C>) as BS))))
+        }
+        ("L.u", [a]) => pick_d!(*a, A => Some(Box::new(SL1::<A>(PhantomData)) as BS)),
+        ("L.u", [a, b]) => pick_d!(*a, A => pick_d!(*b, B => Some(Box::new(SL2::<A, B>(PhantomData)) as BS))),
+        ("L.u", [a, b, c]) => {
+            pick_d!(*a, A => pick_d!(*b, B => pick_d!(*c, C => Some(Box::new(SL3::<A, B, C>(PhantomData)) as BS))))
+        }
+        ("L.n", [a]) => pick_n!(*a, A => Some(Box::new(SL1::<A>(PhantomData)) as BS)),
+        ("L.n", [a, b]) => pick_n!(*a, A => pick_n!(*b, B => Some(Box::new(SL2::<A, B>(PhantomData)) as BS))),
+        ("L.n", [a, b, c]) => {
+            pick_n!(*a, A => pick_n!(*b, B => pick_n!(*c, C => Some(Box::new(SL3::<A, B, C>(PhantomData)) as BS))))
+        }
+        _ => None,
+    }
 }
 
 type BK = Box<dyn Kind>;
